@@ -396,6 +396,52 @@ func (w *Rewriter) Ragged(name string, b []byte) ([]byte, bool) {
 	return Join(recs), true
 }
 
+// BadGroup inserts, at a record boundary of the valid encoding b, an unknown group that contains a
+// nested group closed by an end marker of the WRONG field number (unbalanced for every parser), or a
+// group cut off before its end marker. The field numbers used are unknown to message `name`.
+func (w *Rewriter) BadGroup(name string, b []byte) ([]byte, bool) {
+	m := w.F.Msg(name)
+	recs, ok := Split(b)
+	if !ok || m == nil {
+		return nil, false
+	}
+	used := map[int32]bool{}
+	for i := range m.Fields {
+		used[m.Fields[i].Num] = true
+	}
+	r := w.R
+	outer, inner, wrong := unknownNum(r, used), unknownNum(r, used), unknownNum(r, used)
+	for wrong == inner {
+		wrong++
+	}
+	var g []byte
+	g = protowire.AppendTag(g, outer, protowire.StartGroupType)
+	if r.Intn(2) == 0 {
+		g = protowire.AppendTag(g, 1, protowire.VarintType)
+		g = protowire.AppendVarint(g, r.Uint64()>>uint(r.Intn(64)))
+	}
+	g = protowire.AppendTag(g, inner, protowire.StartGroupType)
+	if r.Intn(2) == 0 {
+		g = protowire.AppendTag(g, 2, protowire.Fixed32Type)
+		g = protowire.AppendFixed32(g, r.Uint32())
+	}
+	switch r.Intn(3) {
+	case 0: // inner group closed with another number, outer closed properly
+		g = protowire.AppendTag(g, wrong, protowire.EndGroupType)
+		g = protowire.AppendTag(g, outer, protowire.EndGroupType)
+	case 1: // inner closed properly, outer closed with the inner's number
+		g = protowire.AppendTag(g, inner, protowire.EndGroupType)
+		g = protowire.AppendTag(g, wrong, protowire.EndGroupType)
+	default: // inner never closed
+		g = protowire.AppendTag(g, outer, protowire.EndGroupType)
+	}
+	pos := r.Intn(len(recs) + 1)
+	out := Join(recs[:pos])
+	out = append(out, g...)
+	out = append(out, Join(recs[pos:])...)
+	return out, true
+}
+
 // Mutate returns a (probably malformed) corruption of b.
 func Mutate(r *rand.Rand, b []byte) []byte {
 	out := append([]byte(nil), b...)
